@@ -346,8 +346,8 @@ theorem ColdInv.step_call {P : Prog} (fuel : Nat) {s : Storage} (h : ColdInv P s
   · rw [if_neg hp]
     have hids : stackIds s = [] := by simp [stackIds, h.stack]
     obtain ⟨s', hc, hm', hs'⟩ := callVia_sim (execSim P fuel) s (nodeOf P f a) v h.mid (by rw [hids]; exact hv)
-    rw [hc]
-    refine ⟨⟨?_, fun n r hn => hm' n r hn⟩, Or.inr rfl⟩
+    simp only [hc]
+    refine ⟨⟨?_, fun n r hn => hm' n r hn⟩, by simp⟩
     have := hs'.ids
     simp only [stackIds, h.stack, List.map_nil, List.map_eq_nil_iff] at this
     exact this
